@@ -340,8 +340,11 @@ CHECKS = {
                 "limit (emergency drain), insert into a full index (tombstone compaction)); for EVERY ordered pair (X,Y) X is parked before its "
                 "i-th lock event (quick: first/middle/last + 5 seeded; thorough: every i) while Y runs to completion or blocks, then X resumes; "
                 "plus a seeded double-pause and selected triples per pair. soak leg: 8 free-running threads x 120 random catalogue operations "
-                "with seeded jitter at lock acquisitions. A violation is ONLY a wait-for cycle reported by parking_lot's own deadlock detector "
-                "(with the blocked threads' engine frames); lock-order-graph cycles and recursive reads are harvested as candidates into the "
+                "with seeded jitter at lock acquisitions; every 6th round runs with 2 query / worker permits and a 1 ms cold stage while the "
+                "engine's own blocking-pool search workers are delayed 0.2-3 ms at 25 % of their lock acquisitions (worker-permit saturation "
+                "exits of the timed search; exits taken are counted in the evidence). A violation is ONLY a wait-for cycle reported by parking_lot's own deadlock detector "
+                "(with the blocked threads' engine frames) or a certain one-thread self-deadlock seen by the lock monitor (a blocking acquisition of a "
+                "non-reentrant lock the same thread holds in a conflicting mode); lock-order-graph cycles and recursive reads are harvested as candidates into the "
                 "evidence and never raise an alarm; a watchdog expiry without a reported cycle is inconclusive. distinct_nontrivial = distinct "
                 "(X, Y[, Z], pause point(s)) schedules",
         "legs": [
